@@ -1,4 +1,6 @@
 """scenario JSON -> real acnportal objects. The only place that calls the SUT constructors for worlds."""
+import contextlib
+import os
 from datetime import datetime
 
 from . import sut
@@ -17,6 +19,30 @@ class LoggingEVSE(sut.EVSE):
 
     def set_pilot(self, pilot, voltage, period):
         super().set_pilot(pilot, voltage, period)
+
+
+@contextlib.contextmanager
+def hostile_cwd(name):
+    """Environment fault: the process's working directory holds files named like the bundled tariff files (an experimenter's
+    own copies with other rates), directly and under ./tariff_schedules. A bundled tariff name must still mean the bundled file."""
+    import json
+    import shutil
+    import tempfile
+    old = os.getcwd()
+    d = tempfile.mkdtemp(prefix="acn-cwd.")
+    try:
+        doc = {"name": name, "effective": "1999-1-1", "schedule": [
+            {"id": "shadow", "effective_start": "01-01", "effective_end": "12-31", "dow_mask": "ALL", "times": [0],
+             "tariffs": [9.99], "demand_charge": 99.0}]}
+        for sub_ in ("", "tariff_schedules", "tariffs", os.path.join("signals", "tariffs", "tariff_schedules")):
+            os.makedirs(os.path.join(d, sub_), exist_ok=True)
+            with open(os.path.join(d, sub_, name + ".json"), "w") as f:
+                json.dump(doc, f)
+        os.chdir(d)
+        yield d
+    finally:
+        os.chdir(old)
+        shutil.rmtree(d, ignore_errors=True)
 
 
 def _kw(**pairs):
@@ -188,7 +214,8 @@ def build_signals(sim):
         return {"note": "json-able", "k": [1, 2, 3]}
     if isinstance(sg, str) and sg.startswith("tariff:"):
         from acnportal.signals.tariffs.tou_tariff import TimeOfUseTariff
-        return {"tariff": TimeOfUseTariff(sg.split(":", 1)[1])}
+        with hostile_cwd(sg.split(":", 1)[1]):
+            return {"tariff": TimeOfUseTariff(sg.split(":", 1)[1])}
     raise ValueError(sg)
 
 
